@@ -9,11 +9,17 @@ def decForm : String → Option Form
   | "bound" => some .bound | "dyn" => some .dynT | "unq" => some .unq | "nofn" => some .nofn
   | _ => none
 
+def decShape : String → Option Shape
+  | "nom" => some .nom | "prim" => some .prim | "vec" => some .vec | "ref" => some .ref | "tup" => some .tup
+  | "arr" => some .arr | "fun" => some .fn | "dyn" => some .dynT | "gen" => some .gen
+  | _ => none
+
 def decItem : Sexp → Option (Sum Use ImplD)
   | .list [.atom "use", f, .atom form, .atom target, .atom q] => do
     pure (.inl { file := ← f.nat?, form := ← decForm form, target := target, qual := q == "q" })
-  | .list [.atom "impl", f, .atom tr, .atom ty, .atom which] => do
-    pure (.inr { file := ← f.nat?, tr := tr, ty := ty, which := which })
+  | .list [.atom "impl", f, .atom kind, .atom tr, .atom shape, .atom head, .atom arg, .atom which] => do
+    pure (.inr { file := ← f.nat?, inherent := kind == "inherent", tr := tr, shape := ← decShape shape,
+                 head := if head == "-" then "" else head, arg := if arg == "-" then "" else arg, which := which })
   | _ => none
 
 def decPkg : Sexp → Option ((Pkg × Load) × PkgSrc)
@@ -33,9 +39,9 @@ def decPkg : Sexp → Option ((Pkg × Load) × PkgSrc)
 
 def clsWord : Cls → String
   | .notImported => "not-imported" | .unresolved => "unresolved" | .orphan => "orphan"
-  | .dupLocal => "dup-local" | .dupCross => "dup-cross"
+  | .dupLocal => "dup-local" | .dupCross => "dup-cross" | .inherentNonLocal => "inherent-nonlocal"
 
-def allCls : List Cls := [.dupCross, .dupLocal, .notImported, .orphan, .unresolved]
+def allCls : List Cls := [.dupCross, .dupLocal, .inherentNonLocal, .notImported, .orphan, .unresolved]
 
 def runLine (l : String) : String :=
   let (id, rest) := splitTab l
